@@ -877,12 +877,14 @@ COMMON = dict(level="proof",
 T = "BluetoeModel.AttAccess."
 PROPS = {
     "C01": dict(COMMON,
-                theorems=[T + "step_len_le_mtu", T + "step_framing_partial", T + "step_silent", T + "step_no_oob_read"],
-                imports=["BluetoeModel.AttAccess.Props", "BluetoeModel.AttAccess.Safety"],
+                theorems=[T + "step_len_le_mtu", T + "step_framing_partial", T + "step_silent", T + "step_no_oob_read",
+                          T + "step_no_oob", T + "step_assert_iff", T + "history_no_oob", T + "notify_no_oob",
+                          T + "readAccess_ok", T + "writeAccess_ok", T + "handlersOk_std"],
+                imports=["BluetoeModel.AttAccess.Props", "BluetoeModel.AttAccess.Safety", "BluetoeModel.AttAccess.StepSafety"],
                 witnesses=[T + "step_framing_full_witness"],
                 run=run_c01, design_ref="§5 C01",
-                level_text="For every server table without gaps, every memory/connection state and every non-empty PDU the model of l2cap_input never returns more than min(out_size, negotiated MTU) bytes and answers every request with its response opcode or an Error Response naming it; tied to the code by differential runs on 14 real server types (+2 write-queue servers on the real code only).",
-                level_note="Input side of memory safety is proved (step_no_oob_read: no read outside the PDU). The output / value-memory side (the model's explicit oobWrite / assertFail / Rc.oob results are never produced for well-formed tables) is NOT proved in Lean; it rests on ASan/UBSan over exactly-sized heap buffers on the real code plus the correspondence (a model run that takes such a branch prints MODEL-OOB-* and disagrees). Full framing statement is false of the code (unknown commands / 0x1B / malformed 0x1E are answered, pinned by tests): witness theorem + partial theorem + known findings."),
+                level_text="For every server table without gaps, every memory/connection state and every non-empty PDU the model of l2cap_input never returns more than min(out_size, negotiated MTU) bytes and answers every request with its response opcode or an Error Response naming it. Memory safety, both halves: no read outside the input PDU (step_no_oob_read, unconditional) and, for every well-formed table and state (decidable TableWF/StateWF: max MTU >= 23, a 128 bit value attribute follows its declaration, bound memory >= sizeof(T), CCCD positions inside the connection's array -- evaluated by the model driver on every table dumped from the real templates), every handler implementation obeying the documented contract (out_size <= read_size), every non-empty PDU and out_size >= 23, the result is a PDU: no write outside the output buffer, no copy outside a value in memory, no assert (step_no_oob); the precondition is exact (step_assert_iff: the asserts of l2cap_input fire iff it is violated) and invariant, so the same holds for every history (history_no_oob) and for l2cap_output (notify_no_oob). Tied to the code by differential runs on 14 real server types (+2 write-queue servers on the real code only) under ASan/UBSan with exactly-sized heap buffers.",
+                level_note="Read By Type swallows a failing attribute access in the code and in the model (collectStep ignores the access result), so for that path the value-memory claim is carried by readAccess_ok (no access to any table attribute leaves its value) rather than by the PDU result. Full framing statement is false of the code (unknown commands / 0x1B / malformed 0x1E are answered, pinned by tests): witness theorem + partial theorem + known findings."),
     "C08": dict(COMMON,
                 theorems=[T + "mtu_after_history", T + "invalid_exchange_rejected", T + "response_le_negotiated", T + "notification_le_negotiated"],
                 witnesses=[T + "notification_unfixed_witness"],
